@@ -9,6 +9,7 @@ import subprocess
 import os
 from sexp import show, parse
 from gen import Gen, kind, is_basic, is_fixed, UINT_W, StoreGen, nested_ty, positions, _get_depth
+from gen import offset_positions as gen_offset_positions
 
 HERE = os.path.dirname(os.path.abspath(__file__))
 DRV = os.path.join(os.path.dirname(HERE), 'lean', '.lake', 'build', 'bin', 'rmkdrv')
@@ -110,6 +111,39 @@ class Prop:
 
 
 # --------------------------------------------------------------------------------------------------
+def zero_tail_cases(g, n):
+    """values of variable-length types (capacity of four and more chunks) whose LAST chunk(s) of content hold only zero
+    bits / bytes / numbers while the length is not a multiple of the chunk size: the tail chunk equals the padding"""
+    r = g.rng
+    out = []
+    for _ in range(n):
+        c = r.randrange(4)
+        full = r.choice([1, 2, 2, 3, 4])          # chunks with live data
+        zc = r.choice([1, 1, 2])                   # trailing all-zero chunks (the last one partly used)
+        cap = r.choice([4, 8, 16, 20]) if full + zc <= 4 else r.choice([8, 16, 20])
+        if c == 0:
+            ln = 256 * (full + zc - 1) + r.choice([1, 7, 88, 255])
+            t = ['bl', 256 * cap + r.choice([0, 0, 1, -1])]
+            v = 'b' + ''.join(r.choice('01') for _ in range(256 * full - 1)) + '1' + '0' * (ln - 256 * full)
+        elif c == 1:
+            ln = 32 * (full + zc - 1) + r.choice([1, 5, 31])
+            t = ['Bl', 32 * cap + r.choice([0, 0, 1, -1])]
+            v = 'x' + bytes([r.randint(1, 255) for _ in range(32 * full)] + [0] * (ln - 32 * full)).hex()
+        else:
+            e = r.choice(['u8', 'u16', 'u64', 'bool', 'u128'])
+            per = 32 // UINT_W.get(e, 1)
+            ln = per * (full + zc - 1) + r.choice([1, max(per - 1, 1)])
+            t = ['list', e, per * cap + r.choice([0, 0, 1])]
+            v = ['s'] + [g.max_val(e) if e != 'bool' else '1' for _ in range(per * full)] + ['0'] * (ln - per * full)
+        w = r.random()
+        if w < 0.2:
+            t, v = ['cont', 'u8', t], ['s', '3', v]
+        elif w < 0.3:
+            t, v = ['union', 'none', t], ['u', 1, v]
+        out.append((t, v))
+    return out
+
+
 class ValProp(Prop):
     """properties checked on (type, value) cases"""
 
@@ -117,6 +151,8 @@ class ValProp(Prop):
         out = []
         for _ in range(self.n(tier)):
             t, v = self.tv(g, tier)
+            out.append(show(['val', t, v]))
+        for t, v in zero_tail_cases(g, max(16, self.n(tier) // 20)):
             out.append(show(['val', t, v]))
         return out
 
@@ -790,6 +826,12 @@ class C14(HistProp):
             if v is None:
                 continue
             out.append(show(['ctor', t, g.rng.choice(g.spellings(t)), v]))
+        # integers built from an integer view of another width: in range, at and just over the bound of the target width
+        for _ in range(self.n(tier) // 4):
+            t = r.choice(['u8', 'u16', 'u32', 'u64', 'u128', 'u256'])
+            top = 1 << (8 * UINT_W[t])
+            v = r.choice([top, top + 1, top - 1, top + r.randint(0, 1000), top << 3, r.randrange(top), 255, 256, 0, 1 << 255, (1 << 256) - 1])
+            out.append(show(['ctor', t, 'wide', str(v)]))
         return out
 
     quick_n = 150
@@ -878,6 +920,8 @@ class DecProp(Prop):
             k = lim + r.choice([1, 1, 2, 3])
             tvs.append((['list', e, 4 * lim + 64], ['s'] + [g.val(e, 2) for _ in range(k)], ['list', e, lim]))
             tvs.append((['bl', 4 * lim + 64], g.bits(k), ['bl', lim]))
+        for t, v in zero_tail_cases(g, max(6, self.n(tier) // 40)):
+            tvs.append((t, v, t))
         p = subprocess.run([DRV], input='\n'.join(show(['val', t, v]) for t, v, _ in tvs) + '\n',
                            capture_output=True, text=True, timeout=300)
         encs = []
@@ -896,6 +940,13 @@ class DecProp(Prop):
                     out.append(show(['dec', t, 'x0102', 'x' + b.hex(), 'x' + bytes(r.getrandbits(8) for _ in range(r.choice([1, 4, 9]))).hex()]))
                 else:
                     out.append(show(['dec', t, 'x', 'x' + b.hex(), 'x']))
+            ps_ = gen_offset_positions(t, len(enc)) if not is_basic(t) else []
+            if len(ps_) >= 2:
+                # a LATER top-level offset set to 0 / to the first offset / to the scope
+                b2 = bytearray(enc)
+                i_ = r.choice(ps_[1:])
+                b2[i_:i_ + 4] = r.choice([0, 0, int.from_bytes(enc[ps_[0]:ps_[0] + 4], 'little'), len(enc)]).to_bytes(4, 'little')
+                out.append(show(['dec', t, 'x', 'x' + bytes(b2).hex(), 'x']))
             if r.random() < 0.5:
                 rb = bytes(r.getrandbits(8) for _ in range(r.choice([0, 1, 2, 3, 4, 5, 8, 9, 16, 33])))
                 out.append(show(['dec', t, 'x', 'x' + rb.hex(), 'x']))
@@ -911,15 +962,35 @@ class DecProp(Prop):
             out.append(show(['dec', t, 'x', 'x', 'x']))
             out.append(show(['dec', ['union', t, 'u16'], 'x', 'x00', 'x']))
             out.append(show(['dec', ['cont', 'u8', ['union', 'none', t]], 'x', 'x070500000001', 'x']))
+        # containers of several byte-like variable-size fields (each accepts any byte string up to its limit): every later
+        # offset replaced by 0, by the first offset and by the scope
+        for _ in range(4):
+            fl = [r.choice([['Bl', r.choice([32, 40, 64])], ['list', 'u8', r.choice([32, 48])], ['bl', 512]]) for _ in range(r.choice([2, 2, 3]))]
+            if r.random() < 0.5:
+                fl.insert(r.randint(0, len(fl)), r.choice(['u8', 'u32']))
+            t = ['cont'] + fl
+            v = g.val(t, 2)
+            q = model_query(show(['val', t, v]))
+            if q.get('wt') != '1' or 's.bytes' not in q:
+                continue
+            enc = bytes.fromhex(q['s.bytes'])
+            ps_ = gen_offset_positions(t, len(enc))
+            for i_ in ps_[1:]:
+                for o_ in (0, int.from_bytes(enc[ps_[0]:ps_[0] + 4], 'little'), len(enc)):
+                    b2 = bytearray(enc)
+                    b2[i_:i_ + 4] = o_.to_bytes(4, 'little')
+                    out.append(show(['dec', t, 'x', 'x' + bytes(b2).hex(), 'x']))
         # a REJECTED bit field of more than 32 bytes, then valid decodes of other bit fields (nothing may be left behind)
         for _ in range(3):
-            nb = r.choice([300, 512, 600, 1024])
-            raw = bytes(r.getrandbits(8) | 1 for _ in range(nb // 8 + r.choice([1, 2, 33])))
-            out.append(show(['dec', ['bl', nb], 'x', 'x' + raw.hex() + '00', 'x']))          # no delimiter in the last byte
+            nb = r.choice([300, 516, 600, 1020])
+            ln = r.randint(34, nb // 8)                                    # within the size bounds, more than one chunk
+            raw = bytes(r.getrandbits(8) | 1 for _ in range(ln - 1)) + b'\x00'   # last byte 0: no delimiting bit
+            out.append(show(['dec', ['bl', nb], 'x', 'x' + raw.hex(), 'x']))
             out.append(show(['dec', ['bl', 1024], 'x', 'x0507', 'x']))
-            out.append(show(['dec', ['bv', nb], 'x', 'x' + ('ff' * ((nb + 7) // 8 + 1)), 'x']))  # too long / padding bits set
+            out.append(show(['dec', ['bv', nb], 'x', 'x' + ('ff' * ((nb + 7) // 8)), 'x']))     # exact length, padding bits set
             out.append(show(['dec', ['bv', 768], 'x', 'x' + ('01' * 96), 'x']))
             out.append(show(['dec', ['bl', 9], 'x', 'x1f', 'x']))
+            out.append(show(['dec', ['cont', 'u8', ['bl', 1024]], 'x', 'x07050000000507', 'x']))
         # the same raw bytes decoded first as integers / byte vectors, then (below) in boolean positions
         for t, hx in ((['list', 'u8', 8], '020380ff'), (['Bv', 1], '02'), (['Bv', 1], 'ff'), ('u8', '03'), (['vec', 'u8', 2], '8002'),
                       (['cont', 'u8', ['Bv', 1]], '0203')):
@@ -1005,6 +1076,9 @@ class C09(DecProp):
         ok = self.common(case, py, mo, stats)
         # decode_bytes (for the bare integer types: the lenient bytes-to-integer helper): whatever it
         # returns must satisfy the invariants of the type
+        d0 = py.get('p.decb0')
+        if d0 is not None and not is_basic(case[1]) and mo.get('i.dec') not in (None, 'err') and d0 != mo.get('i.dec'):
+            out.append(F('prop', 'decode_bytes of a valid encoding (first decode of the case) does not give the encoded value', d0, mo.get('i.dec')))
         db = py.get('p.decb')
         if db not in (None, 'err') and db != py.get('p.dec'):
             q = model_query(show(['val', case[1], parse(db)]))
@@ -1072,6 +1146,9 @@ class C10(DecProp):
         if mo.get('i.dec') != 'err' and mo.get('s.bytes') != body:
             out.append(F('model', 'model accepts a non-canonical encoding', mo.get('s.bytes'), body))
         # the decode_bytes spelling (the property excepts only the bare integer / boolean types' lenient helper)
+        d0 = py.get('p.decb0')
+        if d0 is not None and not is_basic(case[1]) and mo.get('i.dec') not in (None, 'err') and d0 != mo.get('i.dec'):
+            out.append(F('prop', 'decode_bytes of a valid encoding (first decode of the case) does not give the encoded value', d0, mo.get('i.dec')))
         db = py.get('p.decb')
         if db not in (None, 'err') and not is_basic(case[1]) and mo.get('i.dec') == 'err':
             q = model_query(show(['val', case[1], parse(db)])) if db != 'err' else {}
@@ -1128,6 +1205,22 @@ class C11(Prop):
                           ['union', 'none', odd()], ['cont', ['list', 'u8', 4], odd(), 'u8', odd()]])
             out.append(show(['type', t]))
             out.append(show(['val', t, g.val(t, 4)]))
+        # values in their DEFAULT state (wholly, or field by field) of types whose default is not their shortest value:
+        # a union whose first option is not its smallest one, as a field / element / option, at any depth
+        for _ in range(self.n(tier) // 6):
+            big0 = lambda: r.choice(['u64', 'u256', ['Bv', r.choice([5, 33])], ['vec', 'u16', 3], ['cont', 'u32', 'u64'], ['bv', 100]])
+            small = lambda: r.choice(['u8', 'u8', ['list', 'u8', 4], ['bl', 5], 'bool'])
+            u = ['union', big0(), small()] + ([small()] if r.random() < 0.3 else [])
+            inner = r.choice([u, u, ['vec', u, r.choice([1, 2, 3])], ['cont', u, 'u8'], ['cont', 'u16', u], ['union', u, 'u8'], ['union', 'none', u]])
+            t = r.choice([inner, ['cont', 'u8', inner], ['cont', inner, ['list', 'u8', 3], inner], ['list', inner, 3],
+                          ['vec', inner, 2], ['cont', ['list', 'u16', 2], 'u8', inner, 'u64']])
+            out.append(show(['type', t]))
+            z = g.zero(t)
+            out.append(show(['val', t, z]))
+            v = g.val(t, 3)
+            if isinstance(z, list) and isinstance(v, list) and len(z) == len(v) and len(v) > 2 and v[0] == 's' and z[0] == 's':
+                # some positions default, the others not
+                out.append(show(['val', t, [v[0]] + [zi if r.random() < 0.5 else vi for zi, vi in zip(z[1:], v[1:])]]))
         return out
 
     def compare(self, case, py, mo, stats):
@@ -1506,6 +1599,8 @@ class C15(ValProp):
             out.append(F('prop', 'reversed() / in / index() / count() disagree with indexing', py['p.seqmixin'], 'all 1'))
         if 'p.slices' in py and set(py['p.slices']) - {'1'}:
             out.append(F('prop', 'in-range slices [0:0],[0:n],[0:1],[n:n],[n/2:n],[0:n/2],[1:n-1] disagree with indexing', py['p.slices'], 'all 1'))
+        if 's.obj' in mo and py.get('p.objjson') != mo['s.obj']:
+            out.append(F('prop', 'read via object export (to_obj, as compact JSON)', py.get('p.objjson'), mo['s.obj']))
         if mo['i.read'] != v:
             out.append(F('model', 'i.read', mo['i.read'], v))
         if mo.get('i.iter') != v:
@@ -1533,6 +1628,8 @@ class C16(ValProp):
             out.append(F('prop', 'a second import (after the results of earlier imports were mutated) differs from the original', py.get('p.obj2'), mo['s.root']))
         if 's.obj' in mo and py.get('p.objjson') != mo['s.obj']:
             out.append(F('prop', 'exported object shape', py.get('p.objjson'), mo['s.obj']))
+        if py.get('p.objrev') != '%s/%s' % (mo['s.root'], mo['s.root']):
+            out.append(F('prop', 'import of the exported object with every dict in the opposite key order / after a JSON dump with sorted keys', py.get('p.objrev'), mo['s.root']))
         if 'i.fromobj' in mo and mo['i.fromobj'] != show(case[2]):
             out.append(F('model', 'fromObj(toObj)', mo['i.fromobj'], show(case[2])))
         return out
@@ -2225,6 +2322,8 @@ class C17(Prop):
                     ops.append(r.choice([['read'], ['len'], ['bytes'], ['root'], ['elem', r.randint(0, 6)], ['elem', r.randint(0, 40)], ['vbl'], ['eqself']]))
                 if r.random() < 0.25 and kind(t) in ('list', 'vec', 'bl', 'bv'):
                     ops.append(['slice', r.randint(0, 40), r.randint(0, 40)])
+                if r.random() < 0.15 and kind(t) in ('list', 'vec', 'bl', 'bv'):
+                    ops.append(['iterk', r.choice([0, 1, 1, 2, 3, 9, 40])])
                 ops.append(o)
             ops.append(r.choice([['read'], ['bytes'], ['root']]))
             out.append(show(['partial', t, v, pos] + ops))
@@ -2276,7 +2375,8 @@ class C17(Prop):
             ops = []
             for _ in range(r.choice([3, 6])):
                 ops.append(r.choice([['slice', r.randint(0, n), r.randint(0, n)], ['slice', r.randint(0, n), r.randint(0, n)],
-                                     ['elem', r.randint(0, n)], ['len']]))
+                                     ['elem', r.randint(0, n)], ['len'],
+                                     ['iterk', r.choice([1, 2, r.randint(0, n), r.randint(0, n)])] if kind(t) in ('list', 'vec', 'bl', 'bv') else ['len']]))
             out.append(show(['partial', t, v, pos] + ops))
         # size queries: containers with dynamic fields next to multi-chunk fixed-size fields, one field summarised
         for _ in range(self.n(tier) // 6):
@@ -2470,6 +2570,13 @@ class C20(Prop):
             observe = lambda: r.choice([['bytes'], ['bytes'], ['iter'], ['read'], ['root'], ['len'], ['fork'], ['fread', r.randrange(4)], ['fread', 0]])
             ops = [r.choice([['fork'], observe()])] + nested_write_ops(g, t, v, r.choice([2, 4, 8]), observe)
             out.append(show(['virt', t, v] + ops + [['read'], ['bytes']]))
+        # PARTIAL trees served lazily: the histories of the partial-tree property (failing accesses included), on the
+        # lazily served partial tree next to the materialised partial tree
+        c17 = C17()
+        c17.quick_n, c17.thorough_n = self.quick_n // 4, self.thorough_n // 4
+        for line in c17.generate(g, tier):
+            if line.startswith('(partial '):
+                out.append('(virtp ' + line[len('(partial '):])
         # tree level: the same tree served lazily, against the virtual-tree model
         for _ in range(self.n(tier)):
             tr = g.tree(r.choice([1, 2, 3, 4, 5]), r.choice([0.1, 0.3, 0.5]))
@@ -2517,6 +2624,29 @@ class C20(Prop):
         bump(stats, 'kinds', kind(case[1]))
         if 'p.import' in py and py['p.import'] != 'ok':
             return [F('prop', 'a virtual tree cannot be created', py['p.import'], 'ok')]
+        if case[0] == 'virtp':
+            if py.get('p.skip'):
+                bump(stats, 'errs', 'skipped:ambiguous-root')
+                return out
+            if py.get('p.ctor') == 'err' or mo.get('i.ctor') == 'err':
+                return [F('prop', 'ctor', py.get('p.ctor'), mo.get('i.ctor'))]
+            if py.get('p.summ') != mo.get('i.summ'):
+                return [F('corr', 'summarize_into', py.get('p.summ'), mo.get('i.summ'))]
+            for i, op in enumerate(case[4:]):
+                p = '%d.' % i
+                a, c = py.get(p + 'v'), py.get(p + 'c')
+                bump(stats, 'ops', 'partial:' + op[0])
+                bump(stats, 'errs', (a or 'none').split(':')[0] + ('' if (a or '').startswith('ok') else ':' + (a or '').split(':')[-1]))
+                if a != c:
+                    out.append(F('prop', 'lazily served and materialised PARTIAL tree differ: op %d %s' % (i, show(op)), a, c))
+                    break
+                cm = c if (c or '').startswith('ok') else 'err'
+                if cm != mo.get(p + 'i'):
+                    # (the partial-tree semantics itself is C17's: here only a drift of the model is reported)
+                    if op[0] != 'sets':
+                        out.append(F('corr', 'materialised partial result differs from the model: op %d %s' % (i, show(op)), c, mo.get(p + 'i')))
+                    break
+            return out
         if py.get('p.skip'):
             bump(stats, 'errs', 'skipped:ambiguous-root')
             return out
